@@ -89,11 +89,10 @@ func (e *Eng) configure() error {
 
 // lemmaEnc builds the pseudo function holding lemma and induction obligations.
 func (e *Eng) lemmaEnc(want func([]string) bool) *FnEnc {
-	if len(e.cs.Lemmas) == 0 && len(e.cs.Inducts) == 0 {
-		return nil
-	}
 	f := &FnEnc{e: e, name: "lemma", kindN: map[string]int{}}
-	any := false
+	any := true
+	// vacuity guard for the theory prelude: it must not be refutable on its own
+	f.obls = append(f.obls, &Obligation{Func: "lemma", Kind: "cover", Label: "prelude", Name: "prelude/cover/consistent", Pos: 0, At: "true", Goal: "true", Cover: true, Src: "prelude", LongCover: true})
 	// lemmas are proved in order; each may use the earlier ones
 	for _, l := range e.cs.Lemmas {
 		if want(l.Tags) {
